@@ -410,7 +410,7 @@ SIGNER_VIOLATE = [("MC_SubscriberSigner_completion.cfg", "AggregatorRuleExact"),
 def _expect_violation(cfg, inv, timeout=600, module="SubscriberMemo"):
     """A control design that the invariants must reject: otherwise the model cannot see the class (broken run,
     never a verdict)."""
-    r = vf.tlc(PID, "mc-" + cfg.replace(".cfg", ""), module, cfg, workers=4, timeout=timeout, heap="4g")
+    r = vf.tlc(PID, "mc-" + cfg.replace(".cfg", ""), module, cfg, workers=4, timeout=timeout, heap="2g")
     if r["timed_out"] or r["kind"] != "invariant" or r["violated"] != inv:
         raise vf.Broken("%s should violate %s (vacuous model?): %s %s\n%s" % (cfg, inv, r["kind"], r["violated"], r["out"][-1500:]))
     vf.log("TLC %s/%s: %s violated as it must be (%d distinct states, %.1fs)" % (module, cfg, inv, r["distinct"], r["wall_s"]))
@@ -419,14 +419,17 @@ def _expect_violation(cfg, inv, timeout=600, module="SubscriberMemo"):
 
 def model(tier):
     """Exhaustive runs and vacuity self-checks, side by side."""
-    jobs = [("mc", "Subscriber", "MC_Subscriber.cfg", {}),
+    # (the quick configurations have at most a few hundred thousand states: a small heap keeps the footprint of the
+    # runs that go side by side low)
+    small = {"heap": "2g"}
+    jobs = [("mc", "Subscriber", "MC_Subscriber.cfg", small),
             # ... with the oracle changed by the re-org and housekeeping two epochs later (one committee)
-            ("mc", "Subscriber", "MC_Subscriber_reorg.cfg", {}),
+            ("mc", "Subscriber", "MC_Subscriber_reorg.cfg", small),
             # ... a re-subscription held inside the aggregator while others run, the re-org leaving validators their slot
-            ("mc", "Subscriber", "MC_Subscriber_overlap.cfg", {})]
-    jobs += [("mc", "SubscriberMemo", c, {}) for c in MUST_PASS]
+            ("mc", "Subscriber", "MC_Subscriber_overlap.cfg", small)]
+    jobs += [("mc", "SubscriberMemo", c, small) for c in MUST_PASS]
     jobs += [("bad", c, inv, {}) for c, inv in MUST_VIOLATE]
-    jobs += [("mc", "SubscriberSigner", c, {}) for c in SIGNER_PASS_QUICK]
+    jobs += [("mc", "SubscriberSigner", c, small) for c in SIGNER_PASS_QUICK]
     jobs += [("bad", c, inv, {"module": "SubscriberSigner"}) for c, inv in SIGNER_VIOLATE]
     if tier == "thorough":
         jobs += [("mc", "SubscriberSigner", c, {"timeout": 1500}) for c in SIGNER_PASS_MORE]
